@@ -53,6 +53,8 @@ def run_gen_job(pid, job, tier, seed):
     gcfg = dict(p["gencfg"])
     if "mod" in gcfg and gcfg["mod"] > 1:
         gcfg["rem"] = (seed + job.get("seed_offset", 0)) % gcfg["mod"]
+    if gcfg.get("kmod", 1) > 1:
+        gcfg["krem"] = (seed + job.get("seed_offset", 0)) % gcfg["kmod"]
     path = os.path.join(wd, "gencfg.json")
     json.dump(gcfg, open(path, "w"))
     out = run_tlc_model(job["gen_spec"], job["gen_spec"], wd, workers=p.get("workers", 8), timeout=p.get("timeout", 1800), xmx=p.get("xmx", "6g"), env_extra={"GENCFG": path})
